@@ -6,6 +6,7 @@ import (
 	"strings"
 	"testing"
 	"time"
+	"verifharness/internal/hook"
 
 	"pgregory.net/rapid"
 	"verifharness/internal/et"
@@ -25,7 +26,8 @@ type Case struct {
 	Pauses  []int      `json:"pauses"`
 	Barrier bool       `json:"barrier"` // late-update mode: wait for due firings before each late row
 	// Idle: a busy source whose timestamps do not advance must not be judged idle (IDLETIMEOUT): real-time case
-	Idle bool `json:"idle,omitempty"`
+	Idle     bool   `json:"idle,omitempty"`
+	HookSeed uint64 `json:"hook_seed,omitempty"` // seed of the engine's build-tag-guarded perturbation points (0 = off)
 }
 
 func genIdle(t *rapid.T) Case {
@@ -119,6 +121,7 @@ func genCase(t *rapid.T) Case {
 			c.Pauses = append(c.Pauses, gen.Pause().Draw(t, "pause"))
 		}
 	}
+	c.HookSeed = hookSeed(t)
 	c.Barrier = c.ALMs > 0
 	return c
 }
@@ -419,6 +422,13 @@ func runIdle(c Case) (res pbt.Result) {
 }
 
 func runCase(c Case) (res pbt.Result) {
+	hook.Configure(c.HookSeed)
+	defer func() {
+		for site, n := range hook.Sites() {
+			res.Count("hook:"+site, n)
+		}
+		hook.Configure(0)
+	}()
 	if c.Idle {
 		return runIdle(c)
 	}
@@ -693,14 +703,22 @@ func features(c Case) []string {
 }
 
 var spec = pbt.Spec[Case]{
-	ID:   "C02",
-	Rule: "generated: event-time tumbling, sliding and session windows with MAXOUTOFORDERNESS and ALLOWEDLATENESS in {0, size/2, 2*size}, 0-3 groups, jittered timelines with rows of graded lateness, bursts without pauses, far-future (year 2100) rows and rows without a usable timestamp (missing, NULL, non-numeric string); with ALLOWEDLATENESS > 0 rows are fed in barrier mode (all due firings delivered before each late row). oracle (invariants over the delivery history, each delivery stamped with the number of Emit calls begun): no early firing; every not-late-on-arrival row reported; garbage rows in no result and results equal with and without them (metamorphic twin run); a window is re-delivered only with an allowance, under the same window_id, with contents = previous + late rows; late row into a fired window still inside the allowance => re-delivery containing it; after the allowance surely expired => not contained. non-trivial = a late row, a garbage row, or a burst >= 10 rows with >= 2 windows; distinct by case hash",
+	ID:          "C02",
+	Rule:        "generated: event-time tumbling, sliding and session windows with MAXOUTOFORDERNESS and ALLOWEDLATENESS in {0, size/2, 2*size}, 0-3 groups, jittered timelines with rows of graded lateness, bursts without pauses, far-future (year 2100) rows and rows without a usable timestamp (missing, NULL, non-numeric string); with ALLOWEDLATENESS > 0 rows are fed in barrier mode (all due firings delivered before each late row). oracle (invariants over the delivery history, each delivery stamped with the number of Emit calls begun): no early firing; every not-late-on-arrival row reported; garbage rows in no result and results equal with and without them (metamorphic twin run); a window is re-delivered only with an allowance, under the same window_id, with contents = previous + late rows; late row into a fired window still inside the allowance => re-delivery containing it; after the allowance surely expired => not contained. non-trivial = a late row, a garbage row, or a burst >= 10 rows with >= 2 windows; distinct by case hash",
 	Assumptions: []string{"lateness of an update is judged by window end + allowance (Flink semantics); in the sliver where the window is still open but the row is older than watermark - allowance either outcome is accepted", "a window counts as surely closed only after two later trigger rounds whose deliveries the barrier observed - otherwise either outcome is accepted", "rows late on arrival may be counted or not"},
-	Gen:      genCase,
-	Run:      runCase,
-	Features: features,
+	Gen:         genCase,
+	Run:         runCase,
+	Features:    features,
 }
 
 func TestProp(t *testing.T)    { pbt.RunProp(t, spec) }
 func TestReplay(t *testing.T)  { pbt.RunReplay(t, spec) }
 func TestWitness(t *testing.T) { pbt.RunWitnesses(t, spec) }
+
+// hookSeed: two cases in three run with schedule perturbation at the engine's verif-tagged points.
+func hookSeed(t *rapid.T) uint64 {
+	if rapid.IntRange(0, 2).Draw(t, "hookon") == 0 {
+		return 0
+	}
+	return uint64(rapid.IntRange(1, 1<<30).Draw(t, "hookseed"))
+}
